@@ -8,9 +8,10 @@
              tail = hex bytes appended to the leader once a stream reader is open;
              halt = `-` | <k>,<0|1>: the leader is stopped during this request's transfer after k
              CONTINUE messages (1: its handler answered FAULT, 0: clean end of stream)
-      views: per request of the session (handshake first) the indices a.b.c.d into Ls of the
-             state read at the gate/self inspection, at StartPoint, at IsValidOffset, at
-             NewReader; requests beyond the list read the last state listed
+      views: per request of the session (handshake first) the indices a.a'.b.b'.c.d into Ls of the
+             state read at the gate + selfInspection's input ids, selfInspection's channel id,
+             Handle's input ids, StartPoint, IsValidOffset, NewReader (a.b.c.d = a.a.b.b.c.d);
+             requests beyond the list read the last state listed
       F    : <cur>|<id>=<data>|…                      `_` = empty id
       data : `-` (nothing) | <base>/<hex bytes>/<hex snapshot | ~>
       ch   : `.` | n,n,…                 sizes of the CONTINUE chunks as observed
@@ -78,7 +79,9 @@ def parseNats (s : String) : Option (List Nat) :=
 def parseView (ls : Array (Leader UInt8)) (s : String) : Option (View UInt8) :=
   match (s.splitOn ".").mapM (·.toNat?) with
   | some [a, b, c, d] => do
-    pure ⟨← ls[a]?, ← ls[b]?, ← ls[c]?, ← ls[d]?⟩
+    pure ⟨← ls[a]?, ← ls[a]?, ← ls[b]?, ← ls[b]?, ← ls[c]?, ← ls[d]?⟩
+  | some [a, a', b, b', c, d] => do
+    pure ⟨← ls[a]?, ← ls[a']?, ← ls[b]?, ← ls[b']?, ← ls[c]?, ← ls[d]?⟩
   | _ => none
 
 def mkViews (ls : Array (Leader UInt8)) (vs : Array (View UInt8)) (n : Nat) : View UInt8 :=
